@@ -30,6 +30,17 @@ def gen_mech(rng, nsrc=None):
         # the very same object passed in two positions (evalcommon builds identical descriptions once)
         import copy
         srcs[-1] = copy.deepcopy(srcs[0])
+    if rng.random() < 0.2:
+        # a pool of dice with the SAME faces but different (non-proportional) weights: unlike dice that only look
+        # alike by their outcomes; also under a selection
+        a = gens.hist(rng, max_faces=3, style=rng.choice(["unit", "pos"]), frac_p=0.0, min_faces=2)
+        b = [list(x) for x in a]
+        b[-1][1] += rng.choice([1, 3])
+        dice = [a, b] if rng.random() < 0.5 else [b, a]
+        if rng.random() < 0.5:
+            srcs[0] = {"p": dice}
+        else:
+            srcs[0] = {"pw": dice, "which": rng.choice([[{"i": 0}], [{"i": -1}], [{"s": [None, None, None]}]])}
     keys = list(ec.all_keys(srcs))
     if len(keys) > 60:
         srcs = srcs[:1]
